@@ -48,7 +48,8 @@ ASSUMPTIONS = ['np.argsort returns a sorting permutation (checked by contract_ar
                'evaluated by contract lines on every run: one label per node, refined clusters inside coarse clusters, '
                'no merge => stop flag (Louvain, tol_aggregation >= 0), one row of scores per node',
                'tol_aggregation >= 0 (a negative tolerance makes the real Louvain loop non-terminating: outside the '
-               'options drawn); a fit that goes beyond 200 rounds is stopped by the harness, noted and skipped',
+               'options drawn); a fit that enters more rounds than nodes + 1 is stopped and reported as a failing input '
+               '(fit does not return)',
                'KCenters is run on non-negative weights with positive total only (PageRank refuses other inputs inside '
                'the part that is a parameter of the model)',
                'a node "without outgoing edge" is read as a node of zero out-weight (explicit zeros count as no edge)']
@@ -60,10 +61,9 @@ def _call(f):
 
 
 class TooManyRounds(Exception):
-    """raised by the Recorder when a fit goes beyond MAX_ROUNDS aggregation rounds (termination is C17's)"""
-
-
-MAX_ROUNDS = 200
+    """raised by the Recorder when a fit enters more aggregation rounds than the adjacency has nodes, plus one:
+    `louvain_fit_total` / `leiden_fit_total` bound the rounds by the number of nodes (a continuing round strictly
+    shrinks the graph), so such a fit is on its way not to return"""
 
 
 def _fit(ctx, f, sig, desc, refusal_expected=False):
@@ -78,10 +78,11 @@ def _fit(ctx, f, sig, desc, refusal_expected=False):
             warnings.simplefilter('ignore', RuntimeWarning)      # potts on an all-zero matrix divides by zero
             f()
         return 'ok'
-    except TooManyRounds:
-        # not a C05 verdict ("after fit"): noted, counted, skipped
+    except TooManyRounds as e:
+        # "after fit" presupposes that fit returns: more rounds than nodes contradicts the stop rule the total
+        # theorems rest on (no merge => stop) -> a failing input, not a skip
         ctx.count('fit-not-terminating:%s' % sig.get('entry'))
-        ctx.note('fit stopped by the harness after %d rounds (termination is C17): %r' % (MAX_ROUNDS, desc.get('params')))
+        ctx.spec_fail(dict(sig, output='fit does not return'), desc, {'rounds_entered': str(e)})
         return None
     except Exception as e:
         tb = traceback.extract_tb(e.__traceback__)
@@ -200,7 +201,7 @@ def label_vector_cases(ctx, vec):
     spec = 'c05.spec_reindex %s %s' % (ev, impl[3:]) if impl.startswith('ok ') else None
     out.append(Case(('reindex', ev), {'entry': 'reindex_labels'}, 'c05.reindex ' + ev, impl, spec, nontriv, desc,
                     canon='labels_sorted'))
-    # contract of np.argsort on the key reindex_labels hands it (ties, and the unstable sort beyond 16 entries)
+    # contract of np.argsort on the key reindex_labels hands it (ties between equal sizes in particular)
     if vec:
         _, cnt = np.unique(arr, return_counts=True)
         out.append(Case(('argsort', ev), {'entry': 'np.argsort', 'output': 'contract:IsArgsort'}, None, None,
@@ -269,8 +270,8 @@ class Recorder:
 
         def opt_(labels, *a, **k):
             lab_in = np.asarray(labels).copy()
-            if len(self.levels) >= MAX_ROUNDS:
-                raise TooManyRounds()
+            if self.levels and len(self.levels) > len(self.levels[0][0]):
+                raise TooManyRounds('%d rounds on %d nodes' % (len(self.levels) + 1, len(self.levels[0][0])))
             if not self.levels and a:
                 self.adj0 = sparse.csr_matrix(a[0]).copy()      # the graph of the first round
             res = o_opt(labels, *a, **k)
@@ -824,9 +825,7 @@ def estimator_cases(ctx, name, b, reps=1, kcenters=True):
             k = rng.choice([1, 0])                     # refused: fewer than 2 clusters
         params = {'n_clusters': k, 'center_position': pos, 'n_init': rng.choice([1, 2, 1, 2, 1, 2, 0]),
                   'directed': rng.random() < 0.3, 'max_iter': rng.choice([20, 20, 1, 0])}
-        # KCenters(directed=True) hands its input to directed2undirected unconverted: TypeError on anything but csr
-        # (a container-format matter, reported to C01) -> other containers only with directed=False
-        out += kcenters_cases(ctx, b, params, fb, rng.randrange(10 ** 6), 'csr' if params['directed'] else cont())
+        out += kcenters_cases(ctx, b, params, fb, rng.randrange(10 ** 6), cont())
     ctx.count('graph:' + name)
     return out
 
@@ -926,8 +925,6 @@ def corpus_cases(ctx):
 def cases_of_desc(ctx, d):
     if d.get('kind') == 'labels':
         return label_vector_cases(ctx, d['labels'])
-    if d.get('kind') == 'refusal':
-        return refusal_cases(ctx)
     if d.get('kind') == 'aggregate_graph':
         return aggregate_graph_replay(ctx, d)
     b = gfrom(d['graph'])
